@@ -244,20 +244,41 @@ dexpr_simplify(dexpr_t root __attribute__((unused)))
 	return;
 }
 
+static struct dt_dt_s
+__to_ymd(struct dt_dt_s d)
+{
+/* bring the date part (or an epoch stamp) into the ymd calendar so that
+ * values of different calendars compare and all getters work */
+	if (d.typ == DT_SEXY || d.typ == DT_SEXYTAI ||
+	    dt_sandwich_p(d) || dt_sandwich_only_d_p(d)) {
+		return dt_dtconv((dt_dttyp_t)DT_YMD, d);
+	}
+	return d;
+}
+
 static int
 __cmp(struct dt_dt_s stream, struct dt_dt_s cell)
 {
 /* special promoting/demoting version of dt_dtcmp()
  * if CELL is d-only or t-only, demote STREAM */
+	stream = __to_ymd(stream);
+	cell = __to_ymd(cell);
 	if (dt_sandwich_only_d_p(cell)) {
+		if (stream.d.typ == DT_DUNK) {
+			/* no date to compare */
+			return -2;
+		}
 		return dt_dcmp(stream.d, cell.d);
 	} else if (dt_sandwich_only_t_p(cell)) {
+		if (!stream.sandwich) {
+			/* no time to compare */
+			return -2;
+		}
 		return dt_tcmp(stream.t, cell.t);
 	}
 	return dt_dtcmp(stream, cell);
 }
 
-
 static bool
 dexkv_matches_p(const_dexkv_t dkv, struct dt_dt_s d)
 {
@@ -297,10 +318,23 @@ dexkv_matches_p(const_dexkv_t dkv, struct dt_dt_s d)
 		}
 		return res;
 	}
-	/* otherwise it's stuff that uses the S slot */
+	/* otherwise it's stuff that uses the S slot, and needs a date */
+	d = __to_ymd(d);
+	if (d.d.typ == DT_DUNK) {
+		return false;
+	}
 	switch (dkv->sp.spfl) {
 	case DT_SPFL_N_YEAR:
-		cmp = dt_get_year(d.d);
+		if (dkv->sp.tai) {
+			/* %G/%g, the year of the ISO week date */
+			cmp = dt_dconv(DT_YWD, d.d).ywd.y;
+		} else {
+			cmp = dt_get_year(d.d);
+		}
+		if (dkv->sp.abbr != DT_SPMOD_LONG) {
+			/* %y/%g */
+			cmp %= 100;
+		}
 		break;
 	case DT_SPFL_N_MON:
 	case DT_SPFL_S_MON:
